@@ -296,6 +296,15 @@ def _ident_part(ctx, job):
     def check_case(case):
         return check_ident(case), True, ["identity"]
 
+    # every registered vendor / product-type id once (names with unusual spelling are single points in a 16-bit space)
+    from .c16 import tables
+    vendors, ptypes = tables()
+    base = {"product_code": 7, "major": 3, "minor": 9, "status": b"\x12\x34", "serial": 0x0000BEEF, "product_name": "Dev"}
+    for idn in [dict(base, vendor=v, product_type=12) for v in sorted(vendors)] + [dict(base, vendor=1, product_type=t) for t in sorted(ptypes)]:
+        ctx.case(("ident-tabled", idn["vendor"], idn["product_type"]), True, ["identity", "identity-tabled-id"])
+        for d in check_ident(idn):
+            ctx.violation(d, "ident", idn)
+    ctx.exhaustive_parts.append("identity round trip for every registered vendor id and product-type id")
     hyp_search(ctx, "ident", C.values(T("modid")), check_case, job["examples"])
 
 
